@@ -607,7 +607,17 @@ def _find_views(
         view_classifier = IViewClassifier
     registered = registry.adapters.registered
     cache = registry._view_lookup_cache
-    views = cache.get((request_iface, context_iface, view_name))
+    # the classifier and the view types are part of the key: an exception
+    # view lookup must not be answered with the views cached for an ordinary
+    # lookup of the same interfaces and name (and vice versa)
+    cache_key = (
+        request_iface,
+        context_iface,
+        view_name,
+        view_classifier,
+        view_types,
+    )
+    views = cache.get(cache_key)
     if views is None:
         views = []
         for req_type, ctx_type in itertools.product(
@@ -628,7 +638,7 @@ def _find_views(
             # anyway. downside: misses will almost always consume more CPU than
             # hits in steady state.
             with registry._lock:
-                cache[(request_iface, context_iface, view_name)] = views
+                cache[cache_key] = views
 
     return views
 
